@@ -563,6 +563,11 @@ def parse_operand(mnem, text, symvals):
             if inner.count(",") != 1:
                 return None
             left, right = inner.split(",")
+            odd = _re.match(r"^(-*)[XYUS](\+*)$", right)
+            if odd and ((odd.group(1) and odd.group(2)) or len(odd.group(1)) > 2 or len(odd.group(2)) > 2) and \
+                    (left == "" or left in ("A", "B", "D") or parse_expr(left, symvals)):
+                # ,-X+  ,--Y++  ,X+++  ,---S: the 6809 steps an index register before OR after the access, by one or two
+                return {"form": "nomode", "why": "no such auto increment/decrement"}
             m = _re.match(r"^(--|-)?([A-Za-z][A-Za-z0-9]*)(\+\+|\+)?$", right)
             if not m:
                 return None
